@@ -10,6 +10,7 @@ use crate::{
     codec::*,
     core::{
         base_types::NonZero,
+        error::{CodecError, InvalidPacketHeader},
         properties::ReceiveMaximum,
         utils::{ByteLen, Encode, PacketID, SizedPacket},
     },
@@ -483,9 +484,8 @@ where
                 Ok(Left(ConnectRsp::try_from(connack)?))
             }
             RxPacket::Auth(auth) => Ok(Right(AuthRsp::try_from(auth)?)),
-            _ => {
-                unreachable!("Unexpected packet type.");
-            }
+            // Anything else is not a valid answer to this request.
+            _ => Err(CodecError::from(InvalidPacketHeader).into()),
         }
     }
 
@@ -531,9 +531,8 @@ where
                 Ok(Left(ConnectRsp::try_from(connack)?))
             }
             RxPacket::Auth(auth) => Ok(Right(AuthRsp::try_from(auth)?)),
-            _ => {
-                unreachable!("Unexpected packet type.");
-            }
+            // Anything else is not a valid answer to this request.
+            _ => Err(CodecError::from(InvalidPacketHeader).into()),
         }
     }
 
